@@ -68,7 +68,7 @@ func combine(checks ...func(*History, *BlockRecord) []Violation) func(*History, 
 func mixedWeights() map[string]int {
 	return map[string]int{
 		"amm.swap_in": 10, "amm.swap_out": 8, "amm.swap_in_2hop": 3, "amm.swap_out_2hop": 3, "amm.swap_by_denom": 3,
-		"amm.join": 8, "amm.exit": 8, "bank.send_to_pool": 2, "bank.send": 1,
+		"amm.join": 8, "amm.exit": 8, "bank.send_to_pool": 2, "bank.send": 1, "amm.feed_external_liquidity": 2, "tier.set_portfolio": 2,
 		"stablestake.bond": 6, "stablestake.unbond": 4,
 		"leveragelp.open": 6, "leveragelp.close": 5, "leveragelp.update_stop_loss": 1, "leveragelp.claim_rewards": 1, "leveragelp.close_positions": 2,
 		"perpetual.open": 7, "perpetual.close": 5, "perpetual.update_stop_loss": 1, "perpetual.update_take_profit": 1, "perpetual.close_positions": 2,
@@ -135,7 +135,7 @@ var ProfileC05 = &Profile{
 var ProfileC03 = &Profile{
 	ID: "C03", Name: "swap-value", MinBlocks: 6, MaxBlocks: 40, MaxTxs: 6, Spec: withSkew(specDefault), Check: CheckC03Chain,
 	Weights: map[string]int{"amm.swap_in": 14, "amm.swap_out": 14, "amm.swap_in_2hop": 4, "amm.swap_out_2hop": 4, "amm.swap_by_denom": 3, "amm.join": 4, "amm.exit": 4,
-		"oracle.feed_price": 2, "perpetual.open": 1, "perpetual.close": 2, "leveragelp.open": 1, "bank.send_to_pool": 1},
+		"oracle.feed_price": 2, "perpetual.open": 1, "perpetual.close": 2, "leveragelp.open": 1, "bank.send_to_pool": 1, "amm.feed_external_liquidity": 3, "tier.set_portfolio": 3},
 	Rule: "history with >=3 judged pool-blocks (only swaps/joins/exits, unchanged prices, no perpetual exposure) and >=1 block with >=2 successful swaps",
 	NonTrivial: func(h *History) bool {
 		return h.Labels["c03-judged-pool-blocks"] >= 3 && h.Labels["c03-blocks-with>=2-swaps"] >= 1
@@ -459,7 +459,7 @@ var ProfileC18Staking = func() *Profile {
 
 var ProfileC04 = &Profile{
 	ID: "C04", Name: "swap-batch", MinBlocks: 4, MaxBlocks: 25, MaxTxs: 4, Spec: specDefault, Check: CheckC04, ExtraOps: c04ExtraOps,
-	Weights: map[string]int{"amm.swap_in": 8, "amm.swap_out": 6, "amm.join": 4, "amm.exit": 3, "oracle.feed_price": 6, "perpetual.open": 3, "perpetual.close": 2, "stablestake.bond": 1, "amm.swap_in_2hop": 2},
+	Weights: map[string]int{"amm.swap_in": 8, "amm.swap_out": 6, "amm.join": 4, "amm.exit": 3, "oracle.feed_price": 6, "perpetual.open": 3, "perpetual.close": 2, "stablestake.bond": 1, "amm.swap_in_2hop": 2, "amm.feed_external_liquidity": 2, "tier.set_portfolio": 2},
 	Gaps:    []time.Duration{time.Second, 5 * time.Second, 6 * time.Second},
 	Rule:    "history with >=2 accepted requests of one sender in a block, or an accepted request that was not executable at end-block (accepted but no balance effect), and >=1 two-hop request delivered to a passive recipient",
 	NonTrivial: func(h *History) bool {
